@@ -148,7 +148,7 @@ Proof. intros H. change n with (fst (n, i)). apply in_map. exact H. Qed.
 Lemma ids_in i (l : list (name * N)) : In i (ids l) -> exists n, In (n, i) l.
 Proof. unfold ids. rewrite in_map_iff. intros ([n j] & E & H). simpl in E; subst. eauto. Qed.
 
-Lemma inv_sendcheck X s i n : Inv s -> Inv (step_with X s (SendCheck i n)).
+Lemma inv_sendcheck X s i n q : Inv s -> Inv (step_with X s (SendCheck i n q)).
 Proof.
   intros H. simpl. destruct (phase_of s i) eqn:Ph; try exact H.
   destruct (good_idle_free s i H Ph) as [Hni Hc0].
@@ -247,7 +247,7 @@ Qed.
 Lemma inv_writeok X s i : Inv s -> Inv (step_with X s (WriteOk i)).
 Proof.
   intros H. simpl. destruct (phase_of s i) eqn:Ph; try exact H.
-  destruct (alive s && in_open s); [|exact H].
+  destruct (alive s && in_open s && is_ok (req_of s i)); [|exact H].
   assert (Only : forall j, phase_of s j = Writing -> j = i) by (intros j Hj; eapply no_other_writer; eauto).
   pose proof (i_good _ H i) as Gi. unfold good in Gi. rewrite Ph in Gi.
   destruct H as [A B C D E F G Hc Hd]. constructor; simpl; auto.
@@ -257,10 +257,10 @@ Proof.
   - intros j k. upd j i; [discriminate|]. intros Hj. exfalso. auto.
 Qed.
 
-Lemma inv_writefail X s i : Inv s -> Inv (step_with X s (WriteFail i)).
+Lemma inv_writefail X s i w : Inv s -> Inv (step_with X s (WriteFail i w)).
 Proof.
   intros H. simpl. destruct (phase_of s i) eqn:Ph; try exact H.
-  destruct (in_open s); [exact H|].
+  destruct (negb (can_fail (in_open s) (req_of s i) w)); [exact H|].
   assert (Only : forall j, phase_of s j = Writing -> j = i) by (intros j Hj; eapply no_other_writer; eauto).
   pose proof (i_good _ H i) as Gi. unfold good in Gi. rewrite Ph in Gi.
   destruct (lookup (rname s i) (pending s)) eqn:Lk.
@@ -276,12 +276,10 @@ Proof.
     + intros j. upd j i; [split; discriminate|]. split; [discriminate|]. intros Hj. exfalso; auto.
     + intros j k. upd j i; [discriminate|]. intros Hj. exfalso; auto.
     + intros Hr. apply G in Hr. rewrite Hr in El. destruct l1; discriminate.
-    + intros Ha. destruct (Hd Ha) as (? & _ & ?); auto.
   - destruct H as [A B C D E F G Hc Hd]. constructor; simpl; auto.
     + intros j. unfold good; simpl. upd j i; [exact Gi|apply D].
     + intros j. upd j i; [split; discriminate|]. split; [discriminate|]. intros Hj. exfalso; auto.
     + intros j k. upd j i; [discriminate|]. intros Hj. exfalso; auto.
-    + intros Ha. destruct (Hd Ha) as (? & _ & ?); auto.
 Qed.
 
 Lemma next_item_nil : next_item [] = INeed.
@@ -573,17 +571,28 @@ Theorem wait_returns_proof : forall h,
   reader_exited (run h) -> (step (run h) Wait).(wait_ret) <> None.
 Proof. intros h Hr. unfold reader_exited in Hr. unfold step. simpl. rewrite Hr. simpl. discriminate. Qed.
 
-Theorem writer_never_stuck_proof : forall h i,
-  (run h).(phase_of) i = Writing ->
-  (step (run h) (WriteOk i)).(phase_of) i = Ret None \/
-  exists r, (step (run h) (WriteFail i)).(phase_of) i = Ret r.
+Lemma writefail_returns s i w :
+  s.(phase_of) i = Writing -> can_fail s.(in_open) (s.(req_of) i) w = true ->
+  exists r, (step s (WriteFail i w)).(phase_of) i = Ret r.
 Proof.
-  intros h i Ph. pose proof (inv_run h) as H. unfold step. simpl. rewrite Ph.
-  destruct (in_open (run h)) eqn:Io.
-  - left. destruct (alive (run h)) eqn:Al.
-    + simpl. unfold updf. rewrite N.eqb_refl. reflexivity.
-    + destruct (i_dead _ H Al) as (_ & Z & _). congruence.
-  - right. destruct (lookup (rname (run h) i) (pending (run h))); simpl; unfold updf; rewrite N.eqb_refl; eauto.
+  intros Ph Cf. unfold step. simpl. rewrite Ph, Cf. simpl.
+  destruct (lookup (rname s i) (pending s)); simpl; unfold updf; rewrite N.eqb_refl; eauto.
+Qed.
+
+Theorem writer_never_stuck_proof : forall h i,
+  in_its_write (run h) i ->
+  (step (run h) (WriteOk i)).(phase_of) i = Ret None \/
+  exists w r, (step (run h) (WriteFail i w)).(phase_of) i = Ret r.
+Proof.
+  intros h i Ph. unfold in_its_write in Ph. pose proof (inv_run h) as H.
+  destruct (req_of (run h) i) eqn:Q.
+  - destruct (in_open (run h)) eqn:Io.
+    + left. unfold step. simpl. rewrite Ph, Io, Q. destruct (alive (run h)) eqn:Al.
+      * simpl. unfold updf. rewrite N.eqb_refl. reflexivity.
+      * destruct (i_dead _ H Al) as (_ & Z & _). congruence.
+    + right. exists WClosed. apply writefail_returns; [exact Ph|]. rewrite Io, Q. reflexivity.
+  - right. exists WMarshal. apply writefail_returns; [exact Ph|]. rewrite Q. reflexivity.
+  - right. exists WOther. apply writefail_returns; [exact Ph|]. rewrite Q. reflexivity.
 Qed.
 
 Theorem parked_sender_returns_proof : forall h i,
@@ -598,21 +607,25 @@ Record dead (s : st) : Prop := mkDead {
   d_alive : s.(alive) = false; d_out : s.(out_open) = false;
   d_in : s.(in_open) = false; d_buf : s.(buf) = [] }.
 
-Lemma exit_makes_dead s :
-  Inv s -> let s1 := step s (ProcExit false false) in
-  dead s1 /\ s1.(mu) = s.(mu) /\ s1.(rd) = s.(rd) /\ s1.(phase_of) = s.(phase_of).
+Lemma exit_makes_dead s failed peek :
+  Inv s -> let s1 := step s (ProcExit failed peek) in
+  dead s1 /\ s1.(mu) = s.(mu) /\ s1.(rd) = s.(rd) /\ s1.(phase_of) = s.(phase_of) /\ s1.(req_of) = s.(req_of).
 Proof.
   intros H. unfold step. simpl. destruct (alive s) eqn:Al; simpl.
   - repeat split; reflexivity.
   - destruct (i_dead _ H Al) as (A & B & C). repeat split; auto.
 Qed.
 
+Lemma can_fail_for q : can_fail false q (wfail_for q) = true.
+Proof. destruct q; reflexivity. Qed.
+
 Lemma writefail_frees s i :
   dead s -> s.(phase_of) i = Writing ->
-  let s2 := step s (WriteFail i) in dead s2 /\ s2.(mu) = None /\ s2.(rd) = s.(rd).
+  let s2 := step s (WriteFail i (wfail_for (s.(req_of) i))) in
+  dead s2 /\ s2.(mu) = None /\ s2.(rd) = s.(rd) /\ exists r, s2.(phase_of) i = Ret r.
 Proof.
-  intros [A B C D] Ph. unfold step. simpl. rewrite Ph, C.
-  destruct (lookup (rname s i) (pending s)); simpl; repeat split; auto.
+  intros [A B C D] Ph. unfold step. simpl. rewrite Ph, C, can_fail_for. simpl.
+  destruct (lookup (rname s i) (pending s)); simpl; unfold updf; rewrite N.eqb_refl; repeat split; eauto.
 Qed.
 
 Lemma rstep_dead t : dead t -> rd t = RRun ->
@@ -652,25 +665,25 @@ Proof.
     rewrite (rdrain_noop s) by congruence. auto.
 Qed.
 
-Theorem no_deadlock_proof : forall h,
-  let s' := run_from (run h) (wind_down (run h)) in
+Theorem no_deadlock_proof : forall h failed,
+  let s' := run_from (run h) (wind_down failed (run h)) in
   reader_exited s' /\ s'.(mu) = None /\ s'.(pending) = [] /\ (forall i, s'.(phase_of) i <> Writing).
 Proof.
-  intros h s'. pose proof (inv_run h) as H.
+  intros h failed s'. pose proof (inv_run h) as H.
   assert (Hinv : Inv s').
   { unfold s', run_from. apply inv_run_from. exact H. }
   assert (Hrd : s'.(rd) = RDone /\ s'.(mu) = None).
   { unfold s', wind_down.
-    destruct (exit_makes_dead _ H) as (Dd & Mu1 & Rd1 & Ph1).
+    destruct (exit_makes_dead _ failed false H) as (Dd & Mu1 & Rd1 & Ph1 & Rq1).
     destruct (mu (run h)) as [i|] eqn:Mu.
-    - change (run_from (run h) (ProcExit false false :: [WriteFail i] ++ [RStep; RClose; RDrain]))
-        with (run_from (step (step (run h) (ProcExit false false)) (WriteFail i)) [RStep; RClose; RDrain]).
-      assert (Ph : phase_of (step (run h) (ProcExit false false)) i = Writing).
+    - change (run_from (run h) (ProcExit failed false :: [WriteFail i (wfail_for (req_of (run h) i))] ++ [RStep; RClose; RDrain]))
+        with (run_from (step (step (run h) (ProcExit failed false)) (WriteFail i (wfail_for (req_of (run h) i)))) [RStep; RClose; RDrain]).
+      assert (Ph : phase_of (step (run h) (ProcExit failed false)) i = Writing).
       { rewrite Ph1. apply (i_mu _ H). exact Mu. }
-      destruct (writefail_frees _ i Dd Ph) as (Dd2 & Mu2 & _).
+      destruct (writefail_frees _ i Dd Ph) as (Dd2 & Mu2 & _). rewrite Rq1 in Dd2, Mu2.
       apply (reader_winds_down _ Dd2 Mu2).
-    - change (run_from (run h) (ProcExit false false :: [] ++ [RStep; RClose; RDrain]))
-        with (run_from (step (run h) (ProcExit false false)) [RStep; RClose; RDrain]).
+    - change (run_from (run h) (ProcExit failed false :: [] ++ [RStep; RClose; RDrain]))
+        with (run_from (step (run h) (ProcExit failed false)) [RStep; RClose; RDrain]).
       apply (reader_winds_down _ Dd). exact Mu1. }
   destruct Hrd as [Hrd Hmu]. repeat split; auto.
   - apply (i_done _ Hinv Hrd).
@@ -758,7 +771,7 @@ Lemma stream_stops h s r b :
 Proof.
   intros [_ R F] (p & q & E & Q).
   assert (Stream (h ++ [RStep])
-    (mkSt s.(err) s.(closed) s.(term) s.(mu) s.(pending) s.(rname) s.(phase_of) s.(fired)
+    (mkSt s.(err) s.(closed) s.(term) s.(mu) s.(pending) s.(rname) s.(req_of) s.(phase_of) s.(fired)
           (RStop1 r) s.(seen) b s.(out_open) s.(in_open) s.(alive) s.(aborted) s.(noticed) s.(status) s.(wait_ret))) as K.
   { constructor; simpl.
     - exists p, q. rewrite written_app. simpl. rewrite app_nil_r. auto.
@@ -775,8 +788,8 @@ Proof.
     destruct (good_idle_free s i HI Ph) as [_ C0].
     assert (NF : forall o, ~ In (i, o) (fired s)).
     { intros o Hin. apply in_fired_cnt in Hin. lia. }
-    destruct HS as [(p & q & E & Q) R F]. constructor; simpl.
-    + exists p, q. rewrite written_app. simpl. rewrite app_nil_r. auto.
+    destruct HS as [(p & q0 & E & Q) R F]. constructor; simpl.
+    + exists p, q0. rewrite written_app. simpl. rewrite app_nil_r. auto.
     + intros j n' tag Hin. destruct (R j n' tag Hin). split; [|apply client_wrote_more; auto].
       upd j i; auto. exfalso. eapply NF; eauto.
     + intros j n' e Hin. upd j i; [exfalso; eapply NF; eauto|eauto].
@@ -785,9 +798,9 @@ Proof.
     destruct (closed s); [eapply stream_same; eauto|].
     destruct (lookup (rname s i) (pending s)); eapply stream_same; eauto.
   - (* WriteOk *) destruct (phase_of s i); try (eapply stream_same; eauto; fail).
-    destruct (alive s && in_open s); eapply stream_same; eauto.
+    destruct (alive s && in_open s && is_ok (req_of s i)); eapply stream_same; eauto.
   - (* WriteFail *) destruct (phase_of s i); try (eapply stream_same; eauto; fail).
-    destruct (in_open s); [eapply stream_same; eauto|].
+    destruct (negb (can_fail (in_open s) (req_of s i) k)); [eapply stream_same; eauto|].
     destruct (lookup (rname s i) (pending s)); eapply stream_same; eauto.
   - (* COut *)
     destruct HS as [(p & q & E & Q) R F].
@@ -885,4 +898,81 @@ Proof.
   - destruct (after_failure_proof h [] Hf) as [S _]. rewrite app_nil_r in S. exact S.
   - right. pose proof (i_closed _ (inv_run h)) as C. rewrite Hr in C. exact C.
   - right. apply nothing_pending_after_exit_proof. exact He.
+Qed.
+
+(* ====================================================================== *)
+(* the write path: a refused request stays clean; its name is free again;  *)
+(* the end of the process - with or without an error - releases the writer *)
+(* ====================================================================== *)
+Lemma ret_sticky X s a i r : s.(phase_of) i = Ret r -> (step_with X s a).(phase_of) i = Ret r.
+Proof.
+  intros H. destruct a; simpl; auto; try (unfold reader_step, reader_stops; break; simpl; auto; fail).
+  all: destruct (phase_of s i0) eqn:P0; auto; break; simpl; auto; upd i i0; auto; congruence.
+Qed.
+
+Lemma ret_run s h i r : s.(phase_of) i = Ret r -> (run_from s h).(phase_of) i = Ret r.
+Proof.
+  unfold run_from. revert s. induction h as [|a h IH]; intros s H; simpl; auto.
+  apply IH. apply (ret_sticky true). exact H.
+Qed.
+
+Theorem refused_is_clean_proof : forall h h' i,
+  refused (run h) i ->
+  let s := run (h ++ h') in refused s i /\ times_fired i s = 0%nat.
+Proof.
+  intros h h' i [e He] s. subst s.
+  assert (E : phase_of (run (h ++ h')) i = Ret (Some e)).
+  { rewrite run_app. apply ret_run. exact He. }
+  split; [exists e; exact E|].
+  pose proof (i_good _ (inv_run (h ++ h')) i) as G. unfold good in G. rewrite E in G.
+  rewrite times_fired_cnt. tauto.
+Qed.
+
+Lemma lookup_not_in n l : ~ In n (nms l) -> lookup n l = None.
+Proof.
+  induction l as [|[m j] l IH]; simpl; [reflexivity|]. intros H.
+  destruct (bytes_eqb_spec m n) as [->|Hne]; [exfalso; apply H; left; reflexivity|]. apply IH. tauto.
+Qed.
+
+Lemma lookup_removed n l : NoDup (nms l) -> lookup n (remove_name n l) = None.
+Proof.
+  intros ND. destruct (lookup n l) as [i|] eqn:Lk.
+  - destruct (remove_split _ _ _ Lk) as (l1 & l2 & El & Er). rewrite Er. apply lookup_not_in.
+    rewrite El in ND. unfold nms in *. destruct (nodup_map_remove fst l1 (n, i) l2 ND) as [_ Z]. exact Z.
+  - assert (R : remove_name n l = l).
+    { clear ND. induction l as [|[m j] l IH]; simpl in *; [reflexivity|].
+      destruct (bytes_eqb m n); [discriminate|]. rewrite IH; auto. }
+    rewrite R. exact Lk.
+Qed.
+
+Theorem name_free_after_failed_write_proof : forall h i w j,
+  in_its_write (run h) i ->
+  let s := step (run h) (WriteFail i w) in
+  refused s i -> at_the_door s j -> s.(rname) j = s.(rname) i ->
+  let s' := step s (SendLock j) in
+  in_its_write s' j \/ s'.(phase_of) j = Ret (Some EClosed).
+Proof.
+  intros h i w j Ph. unfold in_its_write in Ph. pose proof (inv_run h) as H.
+  unfold step at 1. simpl. rewrite Ph.
+  destruct (negb (can_fail (in_open (run h)) (req_of (run h) i) w)).
+  { intros [e He]. congruence. }
+  destruct (lookup (rname (run h) i) (pending (run h))) eqn:Lk.
+  - cbv zeta. intros _ Hj En. unfold at_the_door in Hj. simpl in Hj, En. unfold in_its_write, step. simpl.
+    rewrite Hj. destruct (closed (run h)); simpl.
+    + right. unfold updf at 1. rewrite N.eqb_refl. reflexivity.
+    + rewrite En, (lookup_removed _ _ (i_nd_n _ H)). simpl. left. unfold updf at 1. rewrite N.eqb_refl. reflexivity.
+  - cbv zeta. intros [e He]. simpl in He. unfold updf in He. rewrite N.eqb_refl in He. discriminate.
+Qed.
+
+Theorem exit_unblocks_writer_proof : forall h failed peek i,
+  in_its_write (run h) i ->
+  let s := step (run h) (ProcExit failed peek) in
+  s.(in_open) = false /\ s.(out_open) = false /\
+  exists r, (step s (WriteFail i (wfail_for (s.(req_of) i)))).(phase_of) i = Ret r.
+Proof.
+  intros h failed peek i Ph s. subst s. unfold in_its_write in Ph.
+  destruct (exit_makes_dead _ failed peek (inv_run h)) as (Dd & _ & _ & Ph1 & _).
+  split; [apply (d_in _ Dd)|]. split; [apply (d_out _ Dd)|].
+  assert (Ph2 : phase_of (step (run h) (ProcExit failed peek)) i = Writing) by (rewrite Ph1; exact Ph).
+  destruct (writefail_frees _ i Dd Ph2) as (_ & _ & _ & R). exact R.
 Qed.
